@@ -135,6 +135,7 @@ def use_and_recheck(rng, m, cls, faces, cov):
     from ..oracles import Geom
     g = Geom(cls, faces)
     nd = g.nd
+    extra_bad = []
     with np.errstate(all='ignore'):
         X, F = pf.cellLocations(m), pf.faceLocations(m)
         for obj, names in ((X, ('_value',)), (F, ('_xvalue', '_yvalue', '_zvalue'))):
@@ -143,6 +144,33 @@ def use_and_recheck(rng, m, cls, faces, cov):
                 if isinstance(a, np.ndarray) and a.size and a.dtype.kind == 'f':
                     a *= 3.0
                     a += 1.0
+        ones_ = pf.CellVariable(m, 1.0)
+        for src_ in (m, ones_):      # derived quantity read from the grid / from a variable and normalised in place
+            w_ = src_.cellvolume
+            if isinstance(w_, np.ndarray) and w_.size and w_.flags.writeable:
+                w_ /= float(np.sum(w_))
+        # ... the same variable still reports the grid's volumes, and its integral of 1 is the domain volume
+        Vm_ = np.asarray(m.cellvolume, dtype=float)
+        if not np.array_equal(np.asarray(ones_.cellvolume, dtype=float), Vm_):
+            extra_bad.append(('cellvolume-of-variable', 'CellVariable.cellvolume differs from the grid\'s cellvolume after an earlier result of the same property was normalised in place'))
+        if abs(float(ones_.domainIntegral()) - float(Vm_.sum())) > 1e-12 * abs(float(Vm_.sum())):
+            extra_bad.append(('cellvolume-of-variable', 'domainIntegral() of the constant 1 is %r, the cell volumes sum to %r' % (float(ones_.domainIntegral()), float(Vm_.sum()))))
+        # vector components written as whole arrays under each label of the coordinate system and read back under the same label
+        from ..oracles import LABELS
+        fvv = pf.FaceVariable(m, 0.0)
+        comp_of = {'x': 'xvalue', 'y': 'yvalue', 'z': 'zvalue', 'r': 'rvalue', 'theta': 'thetavalue', 'phi': 'phivalue'}
+        for lab_ in LABELS[cls]:
+            attr_ = comp_of[lab_]
+            cur_ = np.asarray(getattr(fvv, attr_), dtype=float)
+            new_ = rng.normal(0, 1, cur_.shape)
+            setattr(fvv, attr_, new_.copy())
+            back_ = np.asarray(getattr(fvv, attr_), dtype=float)
+            if back_.shape != new_.shape or not np.array_equal(back_, new_):
+                extra_bad.append(('component-label', 'FaceVariable.%s = array on %s: reading %s back does not return the array that was assigned' % (attr_, cls, attr_)))
+        comps_ = [fvv._xvalue, fvv._yvalue, fvv._zvalue]
+        for j_ in range(nd, 3):
+            if np.size(comps_[j_]):
+                extra_bad.append(('component-label', 'assigning the %d components of %s through their labels left something in hidden component %d' % (nd, cls, j_)))
         if isinstance(X, (list, tuple)):
             for v in X:
                 v.value = np.asarray(v.value) * 2.0 + 1.0
@@ -172,7 +200,7 @@ def use_and_recheck(rng, m, cls, faces, cov):
                 getattr(phi.BCs, sd).periodic = False
         pf.solvePDE(phi, [pf.transientTerm(phi, 0.3, 1.0), -pf.diffusionTerm(Df)])
     cov['mesh_rechecked_after_use'] = 1
-    return [(mech + '/after-use', 'after using the grid (location variables edited in place, periodic and Robin variables, all builders, solves): ' + msg)
+    return [(mech_ + '/after-use', msg_) for mech_, msg_ in extra_bad] + [(mech + '/after-use', 'after using the grid (location variables edited in place, periodic and Robin variables, all builders, solves): ' + msg)
             for mech, msg in check_mesh(m, cls, faces, 'faces')]
 
 
